@@ -418,13 +418,56 @@ fn name_rules(cx: &Ctx, p: &str, d: &str) -> Vec<String> {
     bad
 }
 
+type LintRes = Result<Vec<Lint>, String>;
+
+/// a panic is C01's business unless it breaks the relation: together panics, separately not (or vice versa)
+fn panic_asymmetry(a: &LintRes, b: &LintRes, c: &LintRes) -> Option<String> {
+    let pat = (a.is_err(), b.is_err(), c.is_err());
+    if pat.0 != (pat.1 || pat.2) {
+        Some(format!("panic pattern (together, P, D) = {pat:?}"))
+    } else {
+        None
+    }
+}
+
+/// The metamorphic relation on one pair with fresh linters: the three lint lists and, when all three runs
+/// returned, None (relation holds) or Some(description naming the rules for which it fails alone).
+fn lint_relation(cx: &mut Ctx, p: &str, d: &str, tokens_ok: bool) -> Option<((LintRes, LintRes, LintRes), Option<String>)> {
+    let whole = format!("{p}{d}");
+    let n = p.chars().count();
+    let dict = cx.dict.clone();
+    let gs = cx.groups();
+    let (lw, lp, ld) = (lint_text(&mut gs[0], &dict, &whole), lint_text(&mut gs[1], &dict, p), lint_text(&mut gs[2], &dict, d));
+    let verdict = if let (Ok(a), Ok(b), Ok(c)) = (&lw, &lp, &ld) {
+        let together = multiset(a, 0);
+        let mut separately = multiset(b, 0);
+        separately.extend(multiset(c, n));
+        separately.sort();
+        if together != separately {
+            let (only_t, only_s) = msdiff(&together, &separately);
+            let rules = name_rules(cx, p, d);
+            Some(format!(
+                "lints(P++D) != lints(P) + shift(lints(D)); rules for which the relation fails when run alone: [{}]; token-level relation {}; only together: {:?}; only separately: {:?}",
+                rules.join(", "),
+                if tokens_ok { "holds" } else { "ALSO fails" },
+                only_t.iter().take(3).collect::<Vec<_>>(),
+                only_s.iter().take(3).collect::<Vec<_>>()
+            ))
+        } else {
+            None
+        }
+    } else {
+        None
+    };
+    Some(((lw, lp, ld), verdict))
+}
+
 fn check_pair(rep: &mut Report, cx: &mut Ctx, p: &str, d: &str, origin: &str) {
     rep.eval();
     if !premise(p) {
         rep.count("pair:outside_premise(skipped)");
         return;
     }
-    let n = p.chars().count();
     let tokens_ok = check_tokens(rep, cx, p, d, origin);
     let whole = format!("{p}{d}");
     if rep.n_cases < 200_000 && whole.chars().count() <= 1500 {
@@ -434,40 +477,46 @@ fn check_pair(rep: &mut Report, cx: &mut Ctx, p: &str, d: &str, origin: &str) {
         group_case(rep, cx, &whole);
     }
     let dict = cx.dict.clone();
-    let gs = cx.groups();
-    let (lw, lp, ld) = (lint_text(&mut gs[0], &dict, &whole), lint_text(&mut gs[1], &dict, p), lint_text(&mut gs[2], &dict, d));
-    let (lw, lp, ld) = match (lw, lp, ld) {
-        (Ok(a), Ok(b), Ok(c)) => (a, b, c),
-        (a, b, c) => {
-            // a panic is C01's business unless it breaks the relation: together panics, separately not (or vice versa)
-            let pat = (a.is_err(), b.is_err(), c.is_err());
-            rep.count("pair:lint_panicked");
-            if pat.0 != (pat.1 || pat.2) {
-                rep.fail("lints_panic_asymmetry", format!("panic pattern (together, P, D) = {pat:?}"), pair_json(p, d, origin));
-            }
-            return;
+    let seam = d.starts_with('\n');
+    if seam {
+        // D starts with a newline: the cut (P | D) lies INSIDE a maximal newline run.  The property's seam
+        // is the run itself, so the relation is first evaluated on the pair cut behind the run; a failure
+        // there is an ordinary violation.
+        let (p2, d2) = normalise(p, d);
+        rep.monitor("H_rules_local:pairs_checked", 1);
+        if let Some(Some(what)) = lint_relation(cx, &p2, &d2, tokens_ok).map(|r| r.1) {
+            rep.monitor("H_rules_local:violated", 1);
+            rep.fail("lints", format!("{what} [evaluated on the pair cut behind the newline run: P' = P + leading newlines of D]"), pair_json(p, d, origin));
         }
+    }
+    let Some(((lw, lp, ld), verdict)) = lint_relation(cx, p, d, tokens_ok) else {
+        rep.count("pair:lint_panicked");
+        return;
+    };
+    if let Some(asym) = panic_asymmetry(&lw, &lp, &ld) {
+        rep.fail("lints_panic_asymmetry", asym, pair_json(p, d, origin));
+        return;
+    }
+    let (Ok(lw), Ok(lp), Ok(ld)) = (lw, lp, ld) else {
+        rep.count("pair:lint_panicked");
+        return;
     };
     let together = multiset(&lw, 0);
-    let mut separately = multiset(&lp, 0);
-    separately.extend(multiset(&ld, n));
-    separately.sort();
-    rep.monitor("H_rules_local:pairs_checked", 1);
-    if together != separately {
-        let (only_t, only_s) = msdiff(&together, &separately);
-        let rules = name_rules(cx, p, d);
-        rep.monitor("H_rules_local:violated", 1);
-        rep.fail(
-            "lints",
-            format!(
-                "lints(P++D) != lints(P) + shift(lints(D)); rules for which the relation fails when run alone: [{}]; token-level relation {}; only together: {:?}; only separately: {:?}",
-                rules.join(", "),
-                if tokens_ok { "holds" } else { "ALSO fails" },
-                only_t.iter().take(3).collect::<Vec<_>>(),
-                only_s.iter().take(3).collect::<Vec<_>>()
-            ),
-            pair_json(p, d, origin),
-        );
+    if !seam {
+        rep.monitor("H_rules_local:pairs_checked", 1);
+    } else {
+        rep.monitor("seam:literal_cut_checked", 1);
+    }
+    if let Some(what) = verdict {
+        if seam {
+            // the literal cut inside the newline run: Document(D) starts with a Newline token that does not
+            // exist in Document(P++D), and P's closing ParagraphBreak is longer there (one root cause)
+            rep.monitor("seam:literal_cut_differs", 1);
+            rep.fail("lints_seam", what, pair_json(p, d, origin));
+        } else {
+            rep.monitor("H_rules_local:violated", 1);
+            rep.fail("lints", what, pair_json(p, d, origin));
+        }
     }
     // cache monitor: the long-lived linter answers like a fresh one (the model's cache is coherent)
     if let Ok(w) = lint_text(&mut cx.warm, &dict, &whole) {
@@ -723,6 +772,19 @@ pub fn run(a: &Args, corpus: &[Value]) {
     let mut rep = Report::new(&a.out);
     rep.rule = "pairs (P, D): P = 1-3 generated sentences (hv::gen vocabulary: triggers, misspellings, numbers, abbreviations) with forced contractions / initialisms / ellipses / number suffixes / URLs / e-mail addresses / multi-byte words at start, middle and end, double quotes removed, closed by . ! ? + blank line; D = generated documents, placed constructs, malformed text, leading newlines, quotes, digits, @, empty and one-character texts. Each pair: token-level relation (lexer, then Document), lint-level multiset relation with all rules on (fresh linters), warm-cache monitor; plus edit triples (P,D,P',D'). non-trivial = distinct pair with >=1 lint in P and >=1 lint in D. Correspondence: iterators/hull of the model vs TokenStringExt on the Document tokens of every pair and on synthetic kind sequences".into();
     let mut cx = Ctx::new(a.scale(40, 40));
+    // the four Unicode facts C12_lex_split rests on (hypotheses of the theorem), on the real `char` methods;
+    // is_english_lingual is private: observed through the lexer (a newline is never part of a Word token)
+    {
+        let nl = '\n';
+        let direct = nl.is_whitespace() && !nl.is_numeric() && !nl.is_alphabetic();
+        let toks = PlainEnglish.parse(&['a', '\n', 'b']);
+        let lingual_ok = toks.len() == 3 && matches!(toks[1].kind, TokenKind::Newline(1)) && matches!(toks[0].kind, TokenKind::Word(_));
+        rep.monitor("unicode_laws_newline:checked", 1);
+        if !(direct && lingual_ok) {
+            rep.monitor("unicode_laws_newline:violated", 1);
+            rep.fail("unicode_law", "'\\n' must be whitespace, not numeric, not alphabetic, not English-lingual (hypotheses of C12_lex_split)".into(), json!({"kind": "pair", "p": "a.\n\n", "d": "b"}));
+        }
+    }
     for c in corpus {
         replay_input(&mut rep, &mut cx, c);
     }
